@@ -215,6 +215,11 @@ func (h *hashChild) ensure(files []hashFile) error {
 			if err := os.Symlink("/dev/null", abs); err != nil {
 				return err
 			}
+		case "eio": // a regular file (so says stat) that opens and then cannot be read: the process's own memory file, through a link
+			os.Remove(abs)
+			if err := os.Symlink("/proc/self/mem", abs); err != nil {
+				return err
+			}
 		case "ldir": // a symbolic link to a directory
 			os.Remove(abs)
 			os.MkdirAll(abs+".target", 0o755)
